@@ -262,6 +262,17 @@ def make_stock(fd, cfg, cls_name, solver=None, lm=None, inflow=None, stock=None)
         kw["inflow"] = fd.StockArray(dims=dims, values=_as_given(inflow, cfg.get("layout")))
     if stock is not None:
         kw["stock"] = fd.StockArray(dims=dims, values=_as_given(stock, cfg.get("layout")))
+    if lm is None and cls_name != "SimpleFlowDrivenStock" and cfg.get("settings_late") and len(cfg["items"]) % 2 == 1:
+        # the settings of the lifetime model are changed on the finished stock (stock.lifetime_model.inflow_at = ...), before anything
+        # was computed: what counts is what the model holds when its tables are built
+        cfg_first = dict(cfg, settings_late=False, inflow_at={"start": "middle", "middle": "end", "end": "start"}[cfg["inflow_at"]], n_pts=1 if cfg["n_pts"] > 1 else 3)
+        kw["lifetime_model"] = build_lm(fd, cfg_first)
+        s_ = cls(**kw) if cfg.get("layout", "C") == "C" or len(cfg["shape"]) < 2 else None
+        if s_ is not None:
+            s_.lifetime_model.inflow_at = cfg["inflow_at"]
+            s_.lifetime_model.n_pts_per_interval = cfg["n_pts"]
+            return s_
+        kw["lifetime_model"] = build_lm(fd, cfg)
     if cfg.get("layout", "C") != "C" and len(cfg["shape"]) >= 2:
         # the arrays compute() is to fill are the user's own too (a first guess, a pre-allocated block): same memory layout as the data
         for q_ in ("stock", "inflow", "outflow"):
